@@ -297,7 +297,7 @@ func ConnectTo(addrMap map[string][]string) func(*Attacker) {
 
 		type roundRobin struct {
 			addrs []string
-			n     uint64
+			n     atomic.Uint64 // 64-bit aligned on 32-bit platforms too
 		}
 
 		connectTo := make(map[string]*roundRobin, len(addrMap))
@@ -308,7 +308,7 @@ func ConnectTo(addrMap map[string][]string) func(*Attacker) {
 		tr.DialContext = func(ctx context.Context, network, addr string) (net.Conn, error) {
 			if cm, ok := connectTo[addr]; ok {
 				// Concurrent dials share the counter.
-				n := atomic.AddUint64(&cm.n, 1)
+				n := cm.n.Add(1)
 				addr = cm.addrs[n%uint64(len(cm.addrs))]
 			}
 			return dial(ctx, network, addr)
